@@ -4,6 +4,7 @@ CHECK_DEADLOCK FALSE
 INVARIANT RemIdentity
 INVARIANT FastAgrees
 INVARIANT DivMechOK
+INVARIANT Emit
 CONSTANTS
   K = 40
   GAPMAX = 130
